@@ -69,6 +69,20 @@ add(
     "DESIGN.md 6/C03",
 )
 
+add(
+    "C04",
+    "exploration",
+    "Generated promotion-type schedulers (ASHA, PASHA, cost-aware, RUSH; rung systems, brackets, mode, max_resource_attr on/off), "
+    "scripts with and without checkpointing and every tape-chosen interleaving of suggest calls and reports of up to 4 trials; "
+    "every decision and every suggest outcome must be allowed by a stateful reference model of the documented rule "
+    "(top-down scan, best unpromoted entry, numpy.quantile / cumulative-cost eligibility, next-level target, PASHA cap). "
+    "~2.4e4 histories quick, 5e5 thorough.",
+    "trial->bracket map, rung entries and PASHA cap read from the scheduler; PASHA with one bracket; per-bracket rung systems: "
+    "soundness for resumes + completeness for new trials (the sampled bracket of a resume is not observable). One listed known finding.",
+    "property-based testing (Hypothesis choice tape, stateful protocol driver): validity predicate against a stateful reference model",
+    "DESIGN.md 6/C04",
+)
+
 NOT_YET = {}
 
 ALL = [f"C{i:02d}" for i in range(1, 21)]
